@@ -132,12 +132,13 @@ pub fn apply_conv(c: Conv, t: Token) -> core::result::Result<(), Error> {
             for (i, item) in l.enumerate() {
                 let item = item.map_err(Error::new)?;
                 use scpi::parser::expression::channel_list::Token as CT;
-                let specs: Vec<_> = match item {
-                    CT::ChannelSpec(a) => vec![a],
-                    CT::ChannelRange(a, b) => vec![a, b],
-                    _ => vec![],
+                // no heap allocation here: C11 counts allocations around handlers that run this code
+                let specs: [Option<_>; 2] = match item {
+                    CT::ChannelSpec(a) => [Some(a), None],
+                    CT::ChannelRange(a, b) => [Some(a), Some(b)],
+                    _ => [None, None],
                 };
-                for s in specs {
+                for s in specs.into_iter().flatten() {
                     for (j, d) in s.into_iter().enumerate() {
                         if d.is_err() || j > 64 {
                             break;
